@@ -7,7 +7,7 @@ import os
 import re
 import sys
 
-from . import pipeline, tables
+from . import graph, pipeline, tables
 from .facts import AnalysisIncomplete, Facts
 
 VERIF = pipeline.VERIF
@@ -321,7 +321,37 @@ def prop_tables(pid, fn, explanation):
     return run
 
 
-EXTRA_RULES = {'C10': extra_C10, 'C11': extra_C11}
+def extra_C15(rep, ctx):
+    if 'serde' not in ctx.facts.features:
+        rep.notes.append(f"[{ctx.cfg}] serde feature off: nothing to check")
+        return
+    graph.serde_layouts(rep, ctx.facts)
+    graph.serde_capacity(rep, ctx.facts)
+    # Serialize and visit_str of one type use the same static formatter, the one documented for the type
+    info = {}
+    for r in ctx.e1['roots']:
+        for c in r['contracts']:
+            if c.get('info') and c['prop'] == 'C15':
+                info.setdefault(c['info']['type'], []).append((c['root'], c['info']['static']))
+    for t, uses in sorted(info.items()):
+        want = graph.STATIC_OF_TYPE.get(t)
+        for root, st in uses:
+            ok = len(st) == 1 and st[0].split('::')[-1] == want
+            rep.ob(f"E2|serde-static|{root}", ok, f"{root} uses static formatter(s) {st}; the layout of {t} is {want}", rule='E2-static-agreement')
+    need = 6 if 'oracle' in ctx.facts.features else 5
+    if len(info) < need:
+        raise AnalysisIncomplete(f"serde static-agreement rule saw {len(info)} types, expected {need}")
+
+
+def extra_C17(rep, ctx):
+    graph.delegation(rep, ctx.facts)
+
+
+def extra_C18(rep, ctx):
+    graph.clock_readers(rep, ctx.facts)
+
+
+EXTRA_RULES = {'C10': extra_C10, 'C11': extra_C11, 'C15': extra_C15, 'C17': extra_C17, 'C18': extra_C18}
 
 PROPS = {
     'C01': prop_tables('C01', lambda rep, ctx: tables.c01_tables(rep, ctx.facts),
@@ -338,7 +368,11 @@ PROPS = {
     'C12': prop_contracts('C12', 'time-of-day arithmetic: result congruent to t +/- i modulo 24h and inside [0, 24h) on every path'),
     'C13': prop_contracts('C13', 'interval decomposition identities, decision lists of the field constructors, negation, signed accessors'),
     'C16': prop_contracts('C16', 'whole-second congruence and floor characterisation of every Oracle-style date producer'),
-    'C17': prop_contracts('C17', 'mixed comparisons compare the converted counts with the receiver on the left'),
+    'C17': prop_contracts('C17', 'mixed comparisons compare the converted counts with the receiver on the left; Timestamp/OracleDate units delegate to the same trait item (resolved callee identity)'),
+    'C14': prop_contracts('C14', 'decision list of the float scaling functions on every exit state: zero test before dividing, infinite -> overflow, NaN -> invalid, own gate, product/quotient cast without rounding'),
+    'C15': prop_contracts('C15', 'checked binary decoding (gate on the payload), channel agreement, static formatter identity and literal, buffer capacity'),
+    'C18': prop_contracts('C18', 'who reads the clock (call graph), one reading per now()/conversion, chrono fields flow to the matching gate arguments'),
+    'C05': prop_contracts('C05', 'assembly step T::try_from(record): value is the affine form of the fields (rounded-up fraction carries), never InvalidFraction; preconditions proved at the parser call sites'),
 }
 
 
